@@ -165,8 +165,8 @@ def main(a):
 
     run_suite("exhaustive-small", exhaustive(quick))
     r = Rng(a.seed, 151)
-    run_suite("random", [sched.gen_program(r) for _ in range(300 if quick else 20000)])
-    run_suite("random-large", [sched.gen_program(r, max_funcs=6, size=10) for _ in range(60 if quick else 3000)])
+    run_suite("random", [sched.gen_program(r) for _ in range(300 if quick else 60000)])
+    run_suite("random-large", [sched.gen_program(r, max_funcs=6, size=10) for _ in range(60 if quick else 10000)])
     # sleep grid
     grid = [0, 1, 2, 5, 10, 20, 35, 60] if quick else list(range(0, 61, 3)) * 3
     sp = [SLEEP_PROG % (ms, r.range(1, 6), (ms * 7) % 23, (ms * 7) % 23) for ms in grid]
